@@ -159,7 +159,8 @@ def _magic(mod, s, fl):
 
 DRIVE_SHAPES = ['c:/x', 'C:\\x', 'c:', 'c:/', '//h/s/x', '\\\\h\\s\\x', '//h/s', '//h/s/', '//?/UNC/h/s/x', '//?/c:/x',
                 '//h/s{a}/x', '//h/s|t/x', '//h/{s,t}/x', '//h/s/{a,b}', '//h/s/a|b', '//h/s/*', '//h*/s/x', '//h/s[a]/x',
-                '//./c:/x', 'c:/{a,b}', 'c:/a|b', '//?/GLOBAL/UNC/h/s/x', '//h/s\\x/y']
+                '//./c:/x', 'c:/{a,b}', 'c:/a|b', '//?/GLOBAL/UNC/h/s/x', '//h/s\\x/y', '//?/GLOBAL/UNC/h*/s/x',
+                '//?/GLOBAL/UNC/h[1]/s?/x', '//?/UNC/h*/s/x', '//./GLOBAL/GLOBAL/UNC/h(/s)/x', '//?/GLOBAL/c:/x*', '//h!/-s/~x']
 
 
 def drive_bounds(s):
@@ -227,8 +228,9 @@ def check_drives(res):
 
 def _case_rest(s, loose):
     """CASE: the drive/UNC prefix stays case-insensitive, the rest is exact."""
-    m = re.match(r'^((?:[\\/]{2}[?.][\\/](?:[a-zA-Z]:|(?i:unc)[\\/][^\\/]+[\\/][^\\/]+|(?i:global)[\\/](?i:unc)[\\/][^\\/]+[\\/][^\\/]+))|'
-                 r'(?:[\\/]{2}[^\\/]+[\\/][^\\/]+)|(?:[a-zA-Z]:))', s)
+    m = re.match(r'^(?:[\\/]{2}[?.][\\/](?:[a-zA-Z]:|(?i:unc)(?:[\\/][^\\/]+){2}|'
+                 r'(?:(?i:global)[\\/])+(?:[a-zA-Z]:|(?i:unc)(?:[\\/][^\\/]+){2}|[^\\/]+))|'
+                 r'[\\/]{2}[^\\/]+[\\/][^\\/]+|[a-zA-Z]:)', s)
     k = m.end() if m else 0
     out = []
     i = 0
